@@ -45,7 +45,8 @@ TECHNIQUE = "runtime monitoring: history + executable reference model, global in
 REQUIRED_COUNTERS = ["steps_walked", "parent_links_checked", "own_path_retrievals", "lookup_forms_compared",
                      "deleted_paths_checked_gone", "aliased_replacements_followed", "alias_backrefs_checked",
                      "self_target_attempts_refused", "contract_set_evals", "contract_del_evals", "contract_target_evals",
-                     "ops_on_collection", "ops_with_tuple_key", "ops_with_dotted_key", "invalid_ops_rejected"]
+                     "ops_on_collection", "ops_with_tuple_key", "ops_with_dotted_key", "invalid_ops_rejected",
+                     "inherit_lookup_forms_compared", "inherit_deleted_paths_checked_gone"]
 EXHAUSTIVE = {"quick": True, "thorough": True}
 ASSUMPTIONS = ["exhaustive only over sequences of <=3 operations of the stated alphabet (<=4 over a 16-operation sub-alphabet in the "
                "thorough tier); longer histories are sampled",
@@ -1082,12 +1083,18 @@ def shards(tier: str, seed: int) -> list[dict]:
         out += [{"kind": "random", "count": 1250} for _ in range(40)]
     else:
         out += [{"kind": "random", "count": 200} for _ in range(10)]
+    out.append({"kind": "inherit", "count": 400 if tier == "quick" else 6000})
     return out
 
 
 def run_shard(spec: dict, rec) -> None:  # noqa: ANN001
     install_contracts(rec)
     rng = random.Random(spec["seed"])
+    if spec["kind"] == "inherit":
+        from vf.checks import c16_inherit
+
+        c16_inherit.run(rec, spec["seed"], spec["count"])
+        return
     if spec["kind"] == "exhaustive":
         alphabet = ALPHABET if spec["alphabet"] == "full" else [ALPHABET[i] for i in SUB_ALPHABET]
         rec.maximum(f"alphabet_size_{spec['alphabet']}", len(alphabet))
@@ -1107,6 +1114,11 @@ def run_shard(spec: dict, rec) -> None:  # noqa: ANN001
 
 
 def run_replay(inp: dict, rec) -> None:  # noqa: ANN001
+    if inp.get("kind") == "inheritance-lookups":
+        from vf.checks import c16_inherit
+
+        c16_inherit.replay(rec, inp)
+        return
     install_contracts(rec)
     ops = inp["ops"]
     report(rec, ops, run_history(rec, ops, walk_universe=True))
